@@ -3,7 +3,7 @@
 // This source code is licensed under the MIT license found in the
 // LICENSE file in the root directory of this source tree.
 
-use alloc::vec::Vec;
+use alloc::{format, string::ToString, vec::Vec};
 
 use crypto::ElementHasher;
 use math::FieldElement;
@@ -140,13 +140,26 @@ impl OodFrame {
         }
 
         // if there is a Lagrange kernel, we treat its associated entries separately above
-        let aux_trace_width = aux_trace_width - (lagrange_kernel_frame.is_some() as usize);
+        let aux_trace_width = aux_trace_width
+            .checked_sub(lagrange_kernel_frame.is_some() as usize)
+            .ok_or_else(|| {
+                DeserializationError::InvalidValue(
+                    "Lagrange kernel frame is present but the trace has no auxiliary columns"
+                        .to_string(),
+                )
+            })?;
 
         // parse main and auxiliary trace evaluation frames. This does the reverse operation done in
         // `set_trace_states()`.
         let (current_row, next_row) = {
             let mut reader = SliceReader::new(&self.trace_states);
+            // there are exactly 2 rows in the frame: current and next (see `set_trace_states()`)
             let frame_size = reader.read_u8()? as usize;
+            if frame_size != 2 {
+                return Err(DeserializationError::InvalidValue(format!(
+                    "trace evaluation frame must consist of 2 rows, but was {frame_size}"
+                )));
+            }
             let trace = reader.read_many((main_trace_width + aux_trace_width) * frame_size)?;
 
             if reader.has_more_bytes() {
